@@ -16,7 +16,7 @@ def build(ctx, tier, seed):
     lens = list(range(12, 2045)) if not quick else sorted(set(list(range(12, 80)) + list(range(12, 2045, 37)) + [255, 256, 257, 1023, 1024, 2040, 2041, 2042, 2043, 2044]))
     for n in lens:
         total = n + pad_of(n)
-        fills = [0x00, 0xff, None] if (not quick or n < 40) else [None]
+        fills = [0x00, 0xff, None] if ((not quick and n <= 256) or n < 40) else ([None] if quick else [None, (0x00, 0xff)[n % 2]])
         for fill in fills:
             # exact-extent and with trailing memory that must survive; an arena that would receive a misplaced fill
             for extra in ((0, 7) if n % 4 else (0,)):
@@ -30,7 +30,7 @@ def build(ctx, tier, seed):
     # about to be written, over non-zero stale pad bytes (a "nothing to do" shortcut must still clear the pad)
     from props import exlib
     enc = exlib.Enc(ctx)
-    for n in (sorted(set(list(range(12, 30)) + [254, 255, 257, 1021, 1022, 1023, 2041, 2042, 2043])) if quick else range(12, 2045, 3)):
+    for n in (sorted(set(list(range(12, 30)) + [254, 255, 257, 1021, 1022, 1023, 2041, 2042, 2043])) if quick else range(12, 2045, 7)):
         total = n + pad_of(n)
         q = total // 4
         for dq, dp in ((0, 0), (0, 1), (0, 2), (0, 3), (1, 0), (-1, 0)):
@@ -58,7 +58,7 @@ def build(ctx, tier, seed):
 
 def run(ctx, cases):
     impl = vlib.run_harness(ctx, [c['cmd'] for c in cases])
-    out = vlib.run_oracle(ctx, [c['cmd'] for c in cases] + [c['spec'] for c in cases if c['spec']])
+    out = vlib.run_oracle(ctx, [c['cmd'] for c in cases] + [c['spec'] for c in cases if c['spec']], parallel=True)
     k = len(cases)
     failures, tie = [], []
     for i, c in enumerate(cases):
@@ -67,7 +67,7 @@ def run(ctx, cases):
         c['ref'] = None
         if c['spec']:
             c['ref'] = out[k]; k += 1
-        if not (c['impl'] == c['model'] or (c['model'] == 'OOB' and c['impl'].startswith('CRASH'))):
+        if not (c['impl'] == c['model'] or (c['model'] == 'OOB' and c['impl'].startswith('CRASH')) or c['impl'].startswith('SKIPPED')):
             tie.append(c)
         if c.get('arena') and c['impl'].startswith('B '):
             # independent of the reference: only the pad bytes and the two header fields may differ from the input
